@@ -20,7 +20,15 @@
                                                   FALSE at state level as long as D3 stands: paging_midepoch_counterexample.
                                                   NOT proved at state level even without D3: that nothing pending
                                                   is lost over an epoch (two-run equality); regression + differential run.
-  Endorsement gauges / sponsored streams are C16's (not in M-Incent).
+    exact amounts (state level) ................ distribute_pays_exactly, distribute_gauges_exactly, endBlock_pays_exactly, end_step_pays_exactly,
+                                                  asset_due_is_sum_of_lockRewards (what an account gains in a distribution
+                                                  is Σ lockReward over its qualifying locks, over the gauges distributed)
+    sponsored streams (re-targeted at every epoch start from x/sponsorship's distribution, an input of the model) are
+    inside `Admissible`: stream_bounded / module_solvent_streamer / streamer_endBlock_ok_reachable hold for them;
+    sponsored_retarget_keeps_bound (any distribution, ANY pointer position), sponsored_epoch_start_follows_distribution,
+    sponsored_zero_weight_epoch_not_filled; UpdateStreamDistributionProposal is a re-targeting (excluded like
+    ReplaceStreamDistributionProposal: stream_bounded_update_counterexample); CreatePoolGauge is an ordinary op.
+  Endorsement gauges are C16's (not in M-Incent).
 -/
 import DymVerif.Lemmas.IncentInv
 import DymVerif.Lemmas.IncentStreams
@@ -28,6 +36,7 @@ import DymVerif.Lemmas.IncentBound
 import DymVerif.Lemmas.IncentPaging
 import DymVerif.Lemmas.IncentShare
 import DymVerif.Lemmas.GenEqIncent
+import DymVerif.Lemmas.IncentProp
 namespace DymVerif.C15
 open DymVerif DymVerif.Incent DymVerif.Incent.Coins
 
@@ -144,6 +153,75 @@ theorem asset_rewards_proportional (remain : Coins) (L e l1 l2 i : Nat) (h : l1 
   exact ⟨rfl, lockShare_mono _ _ _ _ _ h⟩
 
 example : amt (lockReward [100, 7] 5 13 3) 0 = 12 ∧ amt (lockReward [100, 7] 7 13 3) 0 = 17 := by decide
+
+/-! ## 3b. exact amounts: "in proportion to the locked amounts" at state level -/
+
+/-- **every call of x/incentives `Keeper.Distribute`, any state, any gauge list**: an account other than the
+    incentives module account is credited exactly `Σ_{g ∈ gauges} dueG s g a` — for an asset gauge the sum of
+    `lockReward` over the account's qualifying locks (`asset_due_is_sum_of_lockRewards`), for a rollapp gauge the
+    whole remainder if the account owns the launched rollapp — nothing more, nothing less -/
+theorem distribute_pays_exactly (s : State) (gs : List Gauge) (ee : Bool) (s' : State) (h : incDistribute s gs ee = .ok s')
+    (a : Nat) (ha : a ≠ incAddr) (i : Nat) :
+    amt (s'.bank.get a) i = amt (s.bank.get a) i + (gs.map (dueG s · a i)).sum :=
+  incDistribute_exact s gs ee s' h a ha i
+
+/-- what one gauge hands out in that call is exactly the sum of what it owes (per coin) -/
+theorem gauge_hands_out_exactly (s : State) (g : Gauge) (tr tr' : Tracker) (c : Coins) (h : calcGauge s g tr = .ok tr' c) (i : Nat) :
+    amt c i = dueTotal s g i :=
+  (calcGauge_exact s g tr tr' c h 0 i).2
+
+/-- ... and every gauge handed in (a copy of a stored gauge: same kind and distributed coins, coins possibly topped
+    up) is stored afterwards with its distributed coins grown by exactly that amount -/
+theorem distribute_gauges_exactly (s : State) (gs : List Gauge) (ee : Bool) (s' : State) (hg : GInv s)
+    (hnd : (gs.map (·.id)).Nodup) (hcoh : ∀ g ∈ gs, Coh s.gauges g) (h : incDistribute s gs ee = .ok s') :
+    ∀ g ∈ gs, ∃ g', getG s'.gauges g.id = some g' ∧ ∀ i, amt g'.distributed i = amt g.distributed i + dueTotal s g i :=
+  incDistribute_gauges_exact s gs ee s' hg.ids hnd hcoh h
+
+/-- for an asset gauge (with coins, qualifying locks and an epoch left) `dueG` IS the sum of `lockReward` over the
+    account's locks that qualify for the gauge -/
+theorem asset_due_is_sum_of_lockRewards (s : State) (g : Gauge) (d dur : Nat) (hk : g.kind = .asset d dur) (hc : g.coins.isZero = false)
+    (hL : lockSum (s.locks.filter (qualifies d dur)) ≠ 0) (hre : remainEpochs g ≠ 0) (a i : Nat) :
+    dueG s g a i =
+      (((s.locks.filter (qualifies d dur)).filter (·.owner == a)).map (fun l =>
+        amt (lockReward (Coins.sub g.coins g.distributed) l.amount (lockSum (s.locks.filter (qualifies d dur))) (remainEpochs g)) i)).sum :=
+  dueG_asset s g d dur hk hc hL hre a i
+
+/-- **state level, the streamer EndBlock in a state satisfying the gauge invariant**: the balance of every account
+    other than the two module accounts grows by exactly what the gauges funded in this block owe it; those gauges
+    are copies of stored gauges (same kind, same distributed coins, coins topped up by the streams), ids distinct;
+    and each of them is stored afterwards with its distributed coins grown by exactly what it handed out -/
+theorem endBlock_pays_exactly (s s' : State) (hg : GInv s) (h : streamerEndBlock s = .ok s') :
+    ∃ gs : List Gauge, (gs.map (·.id)).Nodup ∧ (∀ g ∈ gs, Coh s.gauges g) ∧
+      (∀ a, a ≠ streamerAddr → a ≠ incAddr → ∀ i,
+        amt (s'.bank.get a) i = amt (s.bank.get a) i + (gs.map (dueG s · a i)).sum) ∧
+      (∀ g ∈ gs, ∃ g', getG s'.gauges g.id = some g' ∧ ∀ i, amt g'.distributed i = amt g.distributed i + dueTotal s g i) :=
+  strDistribute_pays_exactly s _ _ _ _ s' hg h
+
+/-- the same **after every history** (module accounts do not sign), for the `end` step whatever its outcome -/
+theorem end_step_pays_exactly (now mi : Nat) (ops : List Op) (hw : ∀ op ∈ ops, op.wf) :
+    ∃ gs : List Gauge, (gs.map (·.id)).Nodup ∧ (∀ g ∈ gs, Coh (run (init now mi) ops).gauges g) ∧
+      (∀ a, a ≠ streamerAddr → a ≠ incAddr → ∀ i,
+        amt ((step (run (init now mi) ops) .end_).2.bank.get a) i =
+          amt ((run (init now mi) ops).bank.get a) i + (gs.map (dueG (run (init now mi) ops) · a i)).sum) ∧
+      (∀ g ∈ gs, ∃ g', getG (step (run (init now mi) ops) .end_).2.gauges g.id = some g' ∧
+        ∀ i, amt g'.distributed i = amt g.distributed i + dueTotal (run (init now mi) ops) g i) := by
+  have hg := run_ginv ops _ (init_ginv now mi) hw
+  generalize run (init now mi) ops = s at hg ⊢
+  have hnone : ∀ s0 : State, s0.bank = s.bank → ∃ gs : List Gauge, (gs.map (·.id)).Nodup ∧ (∀ g ∈ gs, Coh s.gauges g) ∧
+      (∀ a, a ≠ streamerAddr → a ≠ incAddr → ∀ i, amt (s0.bank.get a) i = amt (s.bank.get a) i + (gs.map (dueG s · a i)).sum) ∧
+      (∀ g ∈ gs, ∃ g', getG s0.gauges g.id = some g' ∧ ∀ i, amt g'.distributed i = amt g.distributed i + dueTotal s g i) :=
+    fun s0 hb => ⟨[], List.nodup_nil, by simp, by intro a _ _ i; rw [hb]; simp, by simp⟩
+  unfold step
+  split
+  · exact hnone s rfl
+  · simp only
+    cases h : streamerEndBlock s with
+    | ok s' => exact endBlock_pays_exactly s s' hg h
+    | error e => exact hnone { s with halted := true } rfl
+
+/-- non-vacuity: two locks of account 1 and one of account 2 qualify for gauge 1 (90 coins left, 3 epochs) -/
+example : (let s : State := { locks := [⟨1, 0, 2, 5⟩, ⟨2, 0, 1, 5⟩, ⟨1, 0, 3, 9⟩, ⟨1, 1, 50, 9⟩] }
+    (dueG s exGauge 1 0, dueG s exGauge 2 0, dueTotal s exGauge 0)) = (25, 5, 30) := by decide
 
 /-! ## 4. independence from the per-block iteration limit -/
 
@@ -325,7 +403,7 @@ def blocks (n dt : Nat) : List Op := (List.replicate n [Op.begin dt, Op.end_]).f
 def overHistory : List Op :=
   [.begin 1, .end_] ++ sixGauges 101 ++
   [.locks [⟨1, 0, 100, 3600⟩], .fund streamerAddr [6000000000000001000],
-   .createStream [6000000000000000000] sixRecs 101 1 2, .createStream [1000] [⟨1, 1⟩] 101 2 3] ++ blocks 4 3601
+   .createStream false [6000000000000000000] sixRecs 101 1 2, .createStream false [1000] [⟨1, 1⟩] 101 2 3] ++ blocks 4 3601
 
 /-- regression: the stream now hands out exactly its coins and the second stream stays covered -/
 example : (run (init 100 500) overHistory).streams.map (fun s => (s.coins, s.distributed)) =
@@ -335,7 +413,7 @@ example : (run (init 100 500) overHistory).streams.map (fun s => (s.coins, s.dis
 /-- regression: the exactly funded stream no longer stops block processing -/
 example : (run (init 100 500) ([.begin 1, .end_] ++ sixGauges 101 ++
       [.locks [⟨1, 0, 100, 3600⟩], .fund streamerAddr [6000000000000000000],
-       .createStream [6000000000000000000] sixRecs 101 1 2] ++ blocks 4 3601)).halted = false := by decide
+       .createStream false [6000000000000000000] sixRecs 101 1 2] ++ blocks 4 3601)).halted = false := by decide
 
 /-- what is still owed to the streams in the upcoming and active lists (as `GetModuleToDistributeCoins`
     sums them), per denom -/
@@ -380,7 +458,7 @@ theorem module_solvent_streamer_partial (now mi : Nat) (ops : List Op) (hw : ∀
 def retargetHistory : List Op :=
   [.begin 1, .end_, .createGauge 0 true 0 1 true [] 101 1, .createGauge 0 true 0 1 true [] 101 1,
    .createGauge 0 true 0 1 true [] 101 1, .locks [⟨1, 0, 100, 3600⟩], .fund streamerAddr [2000],
-   .createStream [1000] [⟨1, 1⟩, ⟨2, 1⟩] 101 1 2, .createStream [1000] [⟨3, 1⟩] 101 1 2,
+   .createStream false [1000] [⟨1, 1⟩, ⟨2, 1⟩] 101 1 2, .createStream false [1000] [⟨3, 1⟩] 101 1 2,
    .begin 3601, .end_, .begin 3601, .end_, .replaceDistr 1 [⟨2, 1⟩], .begin 10, .end_, .begin 10, .end_]
 
 theorem stream_bounded_retarget_counterexample :
@@ -388,6 +466,95 @@ theorem stream_bounded_retarget_counterexample :
     (run (init 100 1) retargetHistory).halted = true := by decide
 
 example : Admissible overHistory := by unfold Admissible; decide
+
+/-! ### sponsored streams, UpdateStreamDistributionProposal, pool gauges -/
+
+/-- **a sponsored stream's re-targeting keeps the stream bound, for EVERY distribution handed in and EVERY position
+    of the epoch pointer** (reset to the first gauge, left at the last gauge, or anywhere in between — the pointer is
+    not reset when the epoch had no active stream): the value `UpdateStreamAtEpochStart` stores satisfies
+    `distributed + pending + (remaining epochs − 1)·(shares of one epoch) ≤ coins`, because the epoch coins are
+    recomputed from what is left in the same step -/
+theorem sponsored_retarget_keeps_bound (st : Stream) (d : List Rec) (p : Pointer) (htw : st.totalWeight = totalWeightOf st.recs)
+    (hre : st.numEpochs - st.filled ≠ 0) (hle : ∀ i, amt st.distributed i ≤ amt st.coins i) (i : Nat) :
+    amt (started (st.retarget d)).distributed i + pendId p (started (st.retarget d)) i +
+      ((started (st.retarget d)).numEpochs - (started (st.retarget d)).filled - 1) *
+        sharesOf (started (st.retarget d)) (started (st.retarget d)).recs i ≤ amt (started (st.retarget d)).coins i := by
+  obtain ⟨_, q2, q3, _, _, q6, q7, _⟩ := retarget_static st d
+  exact started_strong (st.retarget d) p (retarget_tw st d htw) (by rw [q6, q7]; exact hre) (by intro j; rw [q2, q3]; exact hle j) i
+
+/-- at its epoch start a sponsored stream is stored with exactly the current distribution as its records and the
+    sum of the powers as its total weight (`DistrInfoFromDistribution`); other streams keep their records -/
+theorem sponsored_epoch_start_follows_distribution (l : List Stream) (s s' : State) (hs : SStruct s) (hnd : (l.map (·.id)).Nodup)
+    (hall : ∀ st ∈ l, getS s.streams st.id = some st) (h : startStreams l s = .ok s') :
+    ∀ st ∈ l, ∃ st', getS s'.streams st.id = some st' ∧ st'.sponsored = st.sponsored ∧
+      (st.sponsored = true → st'.recs = s.distr ∧ st'.totalWeight = totalWeightOf s.distr) ∧
+      (st.sponsored = false → st'.recs = st.recs ∧ st'.totalWeight = st.totalWeight) := by
+  intro st hst
+  obtain ⟨_, _, _, _, _, r⟩ := startStreams_exact l s s' hs hnd hall h
+  refine ⟨_, (r st hst).1, (retarget_static st s.distr).2.2.2.2.2.2.2, ?_, ?_⟩
+  · intro hsp
+    show (st.retarget s.distr).recs = _ ∧ (st.retarget s.distr).totalWeight = _
+    unfold Stream.retarget; rw [if_pos hsp]; exact ⟨rfl, rfl⟩
+  · intro hsp
+    show (st.retarget s.distr).recs = _ ∧ (st.retarget s.distr).totalWeight = _
+    unfold Stream.retarget; rw [if_neg (by rw [hsp]; decide)]; exact ⟨rfl, rfl⟩
+
+/-- `UpdateStreamAtEpochEnd`: an epoch in which the stream had no weight (empty distribution) is not counted -/
+theorem sponsored_zero_weight_epoch_not_filled (st : Stream) (h : st.totalWeight = 0) : st.atEpochEnd = st := by
+  unfold Stream.atEpochEnd; simp [h]
+
+/-- history: three perpetual gauges, a sponsored stream (3000 over three `hour` epochs) created on the distribution
+    {1:5, 2:5}; the distribution moves to {3:9} in the middle of the first epoch, is empty during what would be the
+    third epoch, and comes back as {1:1, 3:3}; paged with limit 1 -/
+def sponsoredHistory : List Op :=
+  [.begin 1, .end_, .createGauge 0 true 0 1 true [] 101 1, .createGauge 0 true 0 1 true [] 101 1,
+   .createGauge 0 true 0 1 true [] 101 1, .locks [⟨1, 0, 100, 3600⟩], .distribution [⟨1, 5⟩, ⟨2, 5⟩],
+   .fund streamerAddr [3000], .createStream true [3000] [] 101 1 3,
+   .begin 3601, .end_, .begin 10, .end_, .distribution [⟨3, 9⟩], .begin 10, .end_,
+   .begin 3601, .end_, .begin 10, .end_, .distribution [],
+   .begin 3601, .end_, .begin 3601, .end_, .distribution [⟨1, 1⟩, ⟨3, 3⟩],
+   .begin 3601, .end_, .begin 10, .end_, .begin 10, .end_, .begin 3601, .end_]
+
+/-- non-vacuity of the sponsored clauses: the history is admissible; the stream re-targets itself at every epoch
+    start — {1,2} in its first epoch (which hands out nothing and still counts: the `hour` pointer was left at the
+    last gauge because the epoch before had no active stream, D3), gauge 3 in the second (1500), the two epochs with
+    an empty distribution are not counted, gauges 1 and 3 in the last (375 + 1125) — and hands out exactly its 3000 -/
+example : Admissible sponsoredHistory := by unfold Admissible; decide
+example : (run (init 100 1) sponsoredHistory).streams.map (fun s => (s.sponsored, s.filled, s.coins, s.distributed, s.recs)) =
+    [(true, 3, [3000], [3000], [⟨1, 1⟩, ⟨3, 3⟩])] ∧
+    (run (init 100 1) sponsoredHistory).gauges.map (fun g => g.coins) = [[375], [], [2625]] := by decide
+
+/-- `UpdateStreamDistributionProposal` is a re-targeting like `ReplaceStreamDistributionProposal` and excluded from
+    `Admissible` for the same reason: stream 1 (1000 coins, gauges 1 and 2, last epoch) is half served with limit 1,
+    then gauge 1 is dropped by an update (weight 0) — gauge 2 now receives the whole epoch amount: 1500 of 1000 -/
+def updateHistory : List Op :=
+  [.begin 1, .end_, .createGauge 0 true 0 1 true [] 101 1, .createGauge 0 true 0 1 true [] 101 1,
+   .createGauge 0 true 0 1 true [] 101 1, .locks [⟨1, 0, 100, 3600⟩], .fund streamerAddr [2000],
+   .createStream false [1000] [⟨1, 1⟩, ⟨2, 1⟩] 101 1 2, .createStream false [1000] [⟨3, 1⟩] 101 1 2,
+   .begin 3601, .end_, .begin 3601, .end_, .updateDistr 1 [⟨1, 0⟩], .begin 10, .end_, .begin 10, .end_]
+
+theorem stream_bounded_update_counterexample :
+    (run (init 100 1) updateHistory).streams.map (fun s => (s.id, s.coins, s.distributed, s.recs)) =
+      [(1, [1000], [1500], [⟨2, 1⟩]), (2, [1000], [], [⟨3, 1⟩])] ∧
+    (run (init 100 1) updateHistory).halted = true := by decide
+
+/-- `Hooks.AfterPoolCreated → CreatePoolGauge` (the streamer module account creates five perpetual asset gauges with
+    empty coins) is an ordinary operation of the admissible histories: it keeps the full invariant -/
+theorem pool_gauges_keep_invariant (s : State) (hi : Inv s) (denom : Nat) (hasSupply : Bool) :
+    Inv (step s (.poolGauges denom hasSupply)).2 := by
+  have hl : (step s (.poolGauges denom hasSupply)).2.streams.length < maxU64 := by
+    unfold step
+    split
+    · exact hi.len
+    · simp only
+      unfold createPoolGauges
+      rw [(poolGaugesLoop_frame denom hasSupply lockableDurations s).1]; exact hi.len
+  exact step_inv s _ hi trivial trivial trivial hl
+
+example : (step (init 100 500) (.poolGauges 11 true)).2.gauges.map (fun g => (g.id, g.kind, g.perpetual, g.coins)) =
+    [(1, .asset 11 1, true, []), (2, .asset 11 3600, true, []), (3, .asset 11 10800, true, []),
+     (4, .asset 11 25200, true, []), (5, .asset 11 60, true, [])] ∧
+    (step (init 100 500) (.poolGauges 12 false)).1 = .err := by decide
 
 /-- **for every history**: streams are never removed, keep their coins and ids, and their distributed
     coins only grow -/
@@ -411,8 +578,8 @@ theorem module_to_distribute_exact (s : State) (alloc : Coins) (h : moduleToDist
 def unsortedHistory : List Op :=
   [.begin 1, .end_, .createGauge 0 true 0 1 true [] 101 1, .createGauge 0 true 0 1 true [] 101 1,
    .locks [⟨1, 0, 100, 3600⟩], .fund streamerAddr [9000],
-   .createStream [3000] [⟨1, 1⟩, ⟨2, 1⟩] 101 1 1, .createStream [3000] [⟨1, 1⟩, ⟨2, 1⟩] 101 1 3,
-   .createStream [3000] [⟨1, 1⟩, ⟨2, 1⟩] 101 1 3, .begin 3601, .end_] ++
+   .createStream false [3000] [⟨1, 1⟩, ⟨2, 1⟩] 101 1 1, .createStream false [3000] [⟨1, 1⟩, ⟨2, 1⟩] 101 1 3,
+   .createStream false [3000] [⟨1, 1⟩, ⟨2, 1⟩] 101 1 3, .begin 3601, .end_] ++
   blocks 2 1200 ++ blocks 1 1201 ++ blocks 2 1200 ++ [.begin 1201]
 
 /-- the reference list is still [3, 2], but with limits 1, 3 and 500 every stream has handed out the same -/
@@ -423,8 +590,8 @@ example : (run (init 100 1) unsortedHistory).active.ids = [3, 2] ∧
 def midEpochHistory : List Op :=
   [.begin 1, .end_, .createGauge 0 true 0 1 true [] 101 1, .createGauge 0 true 0 1 true [] 101 1,
    .createGauge 0 true 0 1 true [] 101 1, .locks [⟨1, 0, 100, 3600⟩], .fund streamerAddr [9000],
-   .createStream [3000] [⟨1, 1⟩, ⟨2, 1⟩, ⟨3, 1⟩] 101 0 3] ++ blocks 2 86401 ++
-  [.createStream [3000] [⟨1, 1⟩, ⟨2, 1⟩, ⟨3, 1⟩] 172903 0 2, .begin 3601, .end_, .begin 10, .end_, .begin 10, .end_, .begin 86401]
+   .createStream false [3000] [⟨1, 1⟩, ⟨2, 1⟩, ⟨3, 1⟩] 101 0 3] ++ blocks 2 86401 ++
+  [.createStream false [3000] [⟨1, 1⟩, ⟨2, 1⟩, ⟨3, 1⟩] 172903 0 2, .begin 3601, .end_, .begin 10, .end_, .begin 10, .end_, .begin 86401]
 
 /-- D3 (not repaired): a `day` stream that becomes active at an `hour` boundary is served in its first
     (partial) day only when the `day` pointer has not yet reached the end: with limit 1 it hands out 1500,
